@@ -1,4 +1,5 @@
 //! Workload generators (pure functions of seed + index).
+pub mod hist;
 pub mod prog;
 pub mod text;
 pub mod toks;
